@@ -44,6 +44,8 @@ type ppProc struct {
 	outR   *os.File
 	stderr bytes.Buffer
 	out    []byte
+	// outFile: stdout of the child is this regular file instead of a pipe
+	outFile string
 }
 
 func ppEnv() []string {
@@ -51,15 +53,25 @@ func ppEnv() []string {
 }
 
 func startPP(bin string, args ...string) (*ppProc, error) {
+	return startPPTo("", bin, args...)
+}
+
+// startPPTo: outFile != "" makes the child's stdout that regular file.
+func startPPTo(outFile, bin string, args ...string) (*ppProc, error) {
 	inR, inW, err := os.Pipe()
 	if err != nil {
 		return nil, err
 	}
-	outR, outW, err := os.Pipe()
-	if err != nil {
+	var outR, outW *os.File
+	if outFile != "" {
+		if outW, err = os.Create(outFile); err != nil {
+			return nil, err
+		}
+		outR, _ = os.Open(os.DevNull)
+	} else if outR, outW, err = os.Pipe(); err != nil {
 		return nil, err
 	}
-	p := &ppProc{inW: inW, outR: outR}
+	p := &ppProc{inW: inW, outR: outR, outFile: outFile}
 	p.cmd = exec.Command(bin, args...)
 	p.cmd.Stdin = inR
 	p.cmd.Stdout = outW
@@ -85,6 +97,11 @@ func startPP(bin string, args ...string) (*ppProc, error) {
 
 // drain reads what is available on stdout without blocking.
 func (p *ppProc) drain() error {
+	if p.outFile != "" {
+		b, err := os.ReadFile(p.outFile)
+		p.out = b
+		return err
+	}
 	for {
 		n, err := fionread(p.outR.Fd())
 		if err != nil {
@@ -142,6 +159,10 @@ func (p *ppProc) waitBlocked(watchdog time.Duration) error {
 
 // drainAll reads stdout to its end (the child has exited or is exiting).
 func (p *ppProc) drainAll() {
+	if p.outFile != "" {
+		p.out, _ = os.ReadFile(p.outFile)
+		return
+	}
 	var buf [65536]byte
 	for {
 		n, err := p.outR.Read(buf[:])
@@ -159,6 +180,7 @@ func (p *ppProc) finish() (int, error) {
 	select {
 	case <-p.exited:
 		<-done
+		p.drainAll()
 		p.outR.Close()
 		return p.code, nil
 	case <-time.After(60 * time.Second):
@@ -199,6 +221,31 @@ func CheckPPDrive(prop string, c *Case, cov *Cov) []*Violation {
 	if len(c.Extra) > 0 {
 		json.Unmarshal(c.Extra, &flags)
 	}
+	// pseudo-flags (not passed to pp): "@stdout-file" = stdout is a regular
+	// file; "@signals" = SIGINT and SIGQUIT are sent to pp at blocking points
+	// (the command ignores them while it filters a pipe: the producer is the
+	// one to die); "@pause" = the producer stays quiet for 2.6 s of real time
+	// once, right after the first dump was delivered
+	outFile, signals, pause := "", false, false
+	{
+		var real []string
+		for _, f := range flags {
+			switch f {
+			case "@stdout-file":
+				outFile = fmt.Sprintf("%s/ppdrive-out-%d-%d-%d.txt", os.TempDir(), os.Getpid(), c.Seed, c.Run)
+			case "@signals":
+				signals = true
+			case "@pause":
+				pause = true
+			default:
+				real = append(real, f)
+			}
+		}
+		flags = real
+	}
+	if outFile != "" {
+		defer os.Remove(outFile)
+	}
 	htmlMode := false
 	for i, f := range flags {
 		if f == "-html" && i+1 < len(flags) {
@@ -227,10 +274,12 @@ func CheckPPDrive(prop string, c *Case, cov *Cov) []*Violation {
 			hasLook = true
 		}
 	}
-	p, err := startPP(bin, flags...)
+	p, err := startPPTo(outFile, bin, flags...)
 	if err != nil {
 		panic(ppInfra{err})
 	}
+	nsig := 0
+	paused := false
 	defer func() {
 		select {
 		case <-p.exited:
@@ -265,6 +314,33 @@ func CheckPPDrive(prop string, c *Case, cov *Cov) []*Violation {
 		}
 		if cov != nil {
 			cov.Probe("pp-block-points")
+		}
+		if signals && nsig < 3 && off > 0 {
+			// pp sleeps in read(0): interrupt it; it must go back to reading
+			sig := []syscall.Signal{syscall.SIGINT, syscall.SIGINT, syscall.SIGQUIT}[nsig]
+			nsig++
+			if err := p.cmd.Process.Signal(sig); err == nil {
+				time.Sleep(3 * time.Millisecond)
+				if err := p.waitBlocked(60 * time.Second); err != nil {
+					if strings.HasPrefix(err.Error(), "child gone") {
+						add("pp-exit", "", fmt.Sprintf("pp exited (status %d) after signal %v #%d while its stdin was still open (%d of %d bytes delivered); stderr: %s", p.code, sig, nsig, off, len(b), clipS(p.stderr.String(), 300)))
+						return vs
+					}
+					panic(ppInfra{err})
+				}
+				if cov != nil {
+					cov.Probe("pp-signal-while-blocked")
+				}
+			}
+		}
+		if pause && !paused && len(s.Dumps) > 0 {
+			if t := terminatorLine(s, &s.Dumps[0]); t >= 0 && s.Lines[t].End <= off && off < len(b) {
+				paused = true
+				time.Sleep(2600 * time.Millisecond)
+				if cov != nil {
+					cov.Probe("pp-quiet-producer-2.6s")
+				}
+			}
 		}
 		if prop != "C11" {
 			continue
@@ -398,6 +474,24 @@ func postPPDrive(prop string) func(seed uint64, tier string, cov *Cov) ([]*Viola
 						fl = []string{"-html", fmt.Sprintf("%s/ppdrive-%s-%d-%d.html", os.TempDir(), prop, seed, i)}
 					}
 					c.Extra, _ = json.Marshal(fl)
+				}
+				// environment of the process: stdout a regular file, signals, a quiet producer
+				switch {
+				case i%6 == 1:
+					var fl []string
+					json.Unmarshal(c.Extra, &fl)
+					if len(fl) == 0 || fl[0] != "-html" {
+						c.Extra, _ = json.Marshal(append(fl, "@stdout-file"))
+						cov.Probe("pp-stdout-regular-file")
+					}
+				case i%6 == 3:
+					var fl []string
+					json.Unmarshal(c.Extra, &fl)
+					c.Extra, _ = json.Marshal(append(fl, "@signals"))
+				case i%45 == 5:
+					var fl []string
+					json.Unmarshal(c.Extra, &fl)
+					c.Extra, _ = json.Marshal(append(fl, "@pause"))
 				}
 				execs++
 				for _, v := range CheckPPDrive(prop, c, cov) {
